@@ -224,8 +224,7 @@ static void String_Rem(var self, var obj) {
   if (c and c->c_str) {
     char* pos = strstr(String_C_Str(self), c->c_str(obj));
     if (pos is NULL) { return; }
-    size_t count = strlen(String_C_Str(self)) - strlen(pos) - 
-      strlen(c->c_str(obj)) + 1;
+    size_t count = strlen(pos) - strlen(c->c_str(obj)) + 1;
     memmove((char*)pos, pos + strlen(c->c_str(obj)), count);
   }
   
